@@ -1,6 +1,7 @@
 // apps: runs the application-middleware engines against the real ibc-go code.
-//   apps -groups ratelimit -n 200 -monitor 200 -cases cases.jsonl -violations viol.jsonl
-//   apps -groups ratelimit -replay requests.jsonl -cases cases.jsonl
+//
+//	apps -groups ratelimit -n 200 -monitor 200 -cases cases.jsonl -violations viol.jsonl
+//	apps -groups ratelimit -replay requests.jsonl -cases cases.jsonl
 package main
 
 import (
@@ -61,7 +62,11 @@ func main() {
 		}
 		if e.Monitor != nil && *mon > 0 {
 			cnt := 0
-			e.Monitor(r.Fork(), *mon, func(v apps.Viol) {
+			budget := *mon
+			if e.MaxMonitor > 0 && budget > e.MaxMonitor {
+				budget = e.MaxMonitor
+			}
+			e.Monitor(r.Fork(), budget, func(v apps.Viol) {
 				if cnt < 20 {
 					vs.Put(v)
 				}
